@@ -17,7 +17,10 @@ use crate::{
     fmt_symbol,
     formatters::{
         block::{format_block, format_last_stmt_no_trivia},
-        expression::{format_expression, format_prefix, format_suffix, hang_expression},
+        expression::{
+            format_expression, format_prefix, format_suffix, hang_expression,
+            parentheses_contain_comments,
+        },
         general::{
             format_contained_punctuated_multiline, format_contained_span, format_end_token,
             format_punctuated, format_token_reference, EndTokenType,
@@ -417,6 +420,12 @@ pub fn format_function_args(
                 && (ctx.should_omit_string_parens() || ctx.should_omit_table_parens())
                 && arguments.len() == 1
                 && !matches!(call_next_node, FunctionCallNextNode::ObscureWithoutParens)
+                // If there are comments inside of the parentheses, keep the parentheses so that they are not lost
+                && !parentheses_contain_comments(parentheses)
+                && !parentheses
+                    .tokens()
+                    .0
+                    .has_leading_comments(CommentSearch::All)
             {
                 let argument = arguments.iter().next().unwrap();
 
